@@ -446,23 +446,43 @@ def analyse_client(text: str) -> dict:
     tree = ast.parse(text)
     ss = _cls(tree, "StreamSession")
     sf = _fns(ss)
-    # `_drained` is written in __init__ (False) and from the result of `_drain_output()` in close / cancel, nowhere else
-    writes = [(fn.name, u(n.value)) for fn in sf.values() for n in ast.walk(fn)
-              if isinstance(n, ast.Assign) and u(n.targets[0]) == "self._drained"]
-    drained_ok = sorted(writes) == [("__init__", "False"), ("cancel", "self._drain_output()"), ("close", "self._drain_output()")]
-    # `_drain_output` returns True only from the `except StopIteration` handler
+    # `_drained` becomes True only when the drain reached the EOS marker.  Two accepted layouts of the same semantics:
+    #  (A) `_drain_output` returns a literal `True` from its `except StopIteration` handler only; `_drained` is assigned
+    #      `False` (constructor) and `self._drain_output()` (close / cancel), nowhere else;
+    #  (B) `_drain_output` keeps a local `reached_eos` (`False`, set `True` only in the `except StopIteration` handler),
+    #      returns `False` (no reader) or `reached_eos`, and — when on_log raised during the drain and the drain went on
+    #      without it — stores `self._drained = reached_eos` itself before re-raising the callback's exception.
+    def _targets(n: ast.AST) -> list[str]:
+        if isinstance(n, ast.Assign):
+            return [u(t) for t in n.targets]
+        if isinstance(n, (ast.AugAssign, ast.AnnAssign)):
+            return [u(n.target)]
+        return []
+
+    writes = sorted((fn.name, u(getattr(n, "value", None)), type(n).__name__) for fn in sf.values() for n in ast.walk(fn)
+                    if "self._drained" in _targets(n))
+    base_writes = [("__init__", "False", "Assign"), ("cancel", "self._drain_output()", "Assign"),
+                   ("close", "self._drain_output()", "Assign")]
     dr = sf.get("_drain_output")
-    ret_true: list[str] = []
+    drained_ok = False
     if dr is not None:
+        rets = [u(x.value) for x in ast.walk(dr) if isinstance(x, ast.Return)]
+        handler_of: dict[int, str] = {}
         for n in ast.walk(dr):
             if isinstance(n, ast.ExceptHandler):
                 for x in ast.walk(n):
-                    if isinstance(x, ast.Return) and u(x.value) == "True":
-                        ret_true.append(u(n.type))
-        all_true = [x for x in ast.walk(dr) if isinstance(x, ast.Return) and u(x.value) == "True"]
-        drained_ok = drained_ok and ret_true == ["StopIteration"] and len(all_true) == 1
-    else:
-        drained_ok = False
+                    handler_of[id(x)] = u(n.type)
+        true_rets = [handler_of.get(id(x)) for x in ast.walk(dr) if isinstance(x, ast.Return) and u(x.value) == "True"]
+        eos = [(u(getattr(n, "value", None)), type(n).__name__, handler_of.get(id(n)))
+               for n in ast.walk(dr) if "reached_eos" in _targets(n)]
+        layout_a = writes == base_writes and true_rets == ["StopIteration"] and set(rets) <= {"True", "False"}
+        layout_b = (
+            writes == sorted(base_writes + [("_drain_output", "reached_eos", "Assign")])
+            and not true_rets
+            and set(rets) == {"False", "reached_eos"}
+            and sorted(eos, key=str) == sorted([("False", "Assign", None), ("True", "Assign", "StopIteration")], key=str)
+        )
+        drained_ok = bool(layout_a or layout_b)
     # the stream caller: request sent -> `_stream_opened = True` immediately; `_last_stream_session` after the session exists
     px = _cls(tree, "_RpcProxy")
     mk = _fns(px).get("_make_stream_caller")
@@ -576,8 +596,10 @@ def shapeLocking : Bool := {_b(a["shapeLocking"])}
 def shapePooled : Bool := {_b(a["shapePooled"])}
 
 /-- client side: the stream caller sets `_stream_opened` right after `_send_request` and `_last_stream_session` once the
-session exists; `StreamSession._drained` is only ever assigned `False` (constructor) or the result of `_drain_output()`
-(in `close` / `cancel`), which returns `True` only on `StopIteration`; `RpcConnection.__exit__` closes the transport -/
+session exists; `StreamSession._drained` becomes `True` only when a drain reached the EOS marker: it is assigned `False`
+(constructor), the result of `_drain_output()` (in `close` / `cancel`) and, inside `_drain_output`, its local `reached_eos`
+before the exception of an `on_log` callback is re-raised; `_drain_output` yields `True` only through its
+`except StopIteration` handler; `RpcConnection.__exit__` closes the transport -/
 def shapeClient : Bool := {_b(c["shapeClient"])}
 
 /-- normalised-AST fingerprint of the modelled functions (drift indicator only) -/
